@@ -582,3 +582,97 @@ def cpow_int_concrete(p, m):
         if not ok:
             res.append(nm + ': ' + d)
     return not res, ' '.join(res)
+
+
+# ------------------------------------------------------------------------------ division, reciprocal (relative error in modulus)
+def cdiv(p):
+    """mpc_div / mpc_reciprocal / mpc_mpf_div / z / w: the result q satisfies |q*w - z| <= 4 * 2**-prec * |z| (i.e. a relative
+    error of at most 4 units in the last place in modulus -- 'a few ulps'), both parts are canonical with at most prec bits.
+    mpc_div_mpf (division by a real): each part is the correctly rounded quotient.  All mantissas and signs symbolic, relative
+    exponents concrete; the error inequality is decided on exact integers (cross-multiplied, no division)."""
+    from pysym import mpmodels
+    zb_, wb_, zo, wo, prec, rnd, fn = p['zbc'], p['wbc'], p['zoff'], p['woff'], p['prec'], p['rnd'], p['fn']
+    M = p.get('margin', 20)
+    mx = max(zb_) + max(wb_) + abs(zo) + abs(wo)
+    ob = Ob(wbump(p, 2 * (mx + prec + M) + 90), timeout_s=p.get('_t', 60), mul_precise_bits=4096,
+            models=mpmodels.mp_models(contract_divmod=True, contract_sqrt=False))
+    G.stats['DIV_PRECISE_BITS'] = 4096
+    z, ze = cshape(ob, p, 'z', zb_, zo)
+    w, we = cshape(ob, p, 'w', wb_, wo)
+    Lc = libmpc()
+    entry = p.get('entry', 'libmp')
+    if fn == 'mpc_reciprocal':
+        z = ((0, 1, 0, 1), FZERO)
+        ze = 0
+        zo, zb_ = 0, [1, 0]
+        outs = ob.run(Lc.mpc_reciprocal, [w, prec, rnd])
+    elif fn == 'mpc_mpf_div':
+        z = (z[0], FZERO)
+        zb_ = [zb_[0], 0]
+        outs = ob.run(Lc.mpc_mpf_div, [z[0], w, prec, rnd])
+    elif entry == 'op':
+        mp = _ctx(prec)
+        outs = ob.run(mp.mpc.__truediv__, [mp.make_mpc(z), mp.make_mpc(w)])
+    else:
+        outs = ob.run(Lc.mpc_div, [z, w, prec, rnd])
+    unwrap = _unwrap_mpc(_ctx(prec).mpc) if entry == 'op' else (lambda v, st: v)
+    zlo, wlo = min(0, zo), min(0, wo)
+
+    def part(x, sh):
+        n, mg = _term(x, sh)
+        return signed(n, mg)
+    A, Bq = part(z[0], 0 - zlo), part(z[1], zo - zlo)          # z = (A + iB) * 2**(ze + zlo)
+    C, D = part(w[0], 0 - wlo), part(w[1], wo - wlo)           # w = (C + iD) * 2**(we + wlo)
+    SH = prec + M
+    E0 = zt(ze) + B(zlo) - zt(we) - B(wlo) - B(SH)             # scale of the result integers
+
+    def good(val, st):
+        val = unwrap(val, st)
+        if val is None:
+            return False
+        goals = []
+        Q = []
+        rng = []
+        for c in val:
+            rs, rm, re, rb = [zt(t) for t in c]
+            dd = re - E0
+            ok_rng = z3.Or(rm == B(0), z3.And(dd >= B(0), dd <= B(SH + mx + 8)))
+            rng.append(ok_rng)
+            Q.append(z3.If(rm == B(0), B(0), signed(rs == B(1), rm << dd)))
+            goals.append(z3.Or(is_tuple(c, FZERO), canonical(c, prec)))
+        Qr, Qi = Q
+        R = Qr * C - Qi * D - (A << SH)
+        I = Qr * D + Qi * C - (Bq << SH)
+        lhs = (R * R + I * I) << (2 * prec)
+        rhs = ((A * A + Bq * Bq) << (2 * SH)) << 4
+        inr = z3.And(rng)
+        return goals + [inr, z3.Implies(inr, lhs <= rhs)]
+    return finish(ob, ob.prove(outs, good))
+
+
+def cdiv_concrete(p, m):
+    zb_, wb_, zo, wo, prec, rnd, fn = p['zbc'], p['wbc'], p['zoff'], p['woff'], p['prec'], p['rnd'], p['fn']
+    z = cconc(m, 'z', zb_, zo)
+    w = cconc(m, 'w', wb_, wo)
+    Lc = libmpc()
+    f = lambda t: O.frac_of(t) if t != FZERO else Fraction(0)
+    if fn == 'mpc_reciprocal':
+        z = ((0, 1, 0, 1), FZERO)
+        r = Lc.mpc_reciprocal(w, prec, rnd)
+    elif fn == 'mpc_mpf_div':
+        z = (z[0], FZERO)
+        r = Lc.mpc_mpf_div(z[0], w, prec, rnd)
+    elif p.get('entry') == 'op':
+        mp = _ctx(prec)
+        try:
+            r = (mp.make_mpc(z) / mp.make_mpc(w))._mpc_
+        finally:
+            mp.prec = 53
+    else:
+        r = Lc.mpc_div(z, w, prec, rnd)
+    a, b, c, d = f(z[0]), f(z[1]), f(w[0]), f(w[1])
+    qr, qi = f(r[0]), f(r[1])
+    R, I = qr * c - qi * d - a, qr * d + qi * c - b
+    ok = (R * R + I * I) * Fraction(4) ** prec <= 16 * (a * a + b * b)
+    okc = all(t == FZERO or O.canonical_concrete(tuple(t), prec) for t in r)
+    return ok and okc, '%s(%r, %r, %d, %r) = %r: |q*w - z| / |z| = %.3g * 2**-%d' % (fn, z, w, prec, rnd, r, float(((R * R + I * I) / (a * a + b * b))) ** 0.5 * 2 ** prec, prec)
